@@ -23,6 +23,44 @@ type Wrap struct{ Inner error }
 func (w Wrap) Error() string { return "wrap(" + w.Inner.Error() + ")" }
 func (w Wrap) Unwrap() error { return w.Inner }
 
+type ShNamer interface{ Name() string }
+type ShSizer interface{ Size() int }
+type ShNameSizer interface {
+	ShNamer
+	ShSizer
+}
+
+type ShBase struct{ id int }
+
+func (b ShBase) Name() int { return b.id } // another signature than ShNamer.Name
+func (b ShBase) Size() int { return b.id * 10 }
+
+type ShMid struct {
+	ShBase
+	label string
+}
+
+func (m ShMid) Name() string { return "mid-" + m.label } // shadows the promoted ShBase.Name
+
+type ShTop struct {
+	*ShMid
+	extra int
+}
+
+type ShPtr struct{ ShBase }
+
+func (p *ShPtr) Name() string { return "ptr" } // only *ShPtr is a ShNamer
+
+func shDescribe(v interface{}) string {
+	switch x := v.(type) {
+	case ShNameSizer:
+		return fmt.Sprint("NameSizer ", x.Name(), " ", x.Size())
+	case ShSizer:
+		return fmt.Sprint("Sizer ", x.Size())
+	}
+	return "other"
+}
+
 type Str struct{ N int }
 
 func (s Str) String() string { return fmt.Sprint("Str<", s.N, ">") }
@@ -115,5 +153,12 @@ func (t Temp) MarshalJSON() ([]byte, error) { return []byte(fmt.Sprintf("\"%.1fC
 	cell("iface-equality", "\tvar a, b, c Shape = Sq{7}, Sq{7}, Sq{8}\n	obs(\"eq\", a == b, a == c, a != b)\n")
 	cell("iface-conversion-call", "\tobs(\"conv\", Shape(Sq{3}).Area())\n")
 	cell("iface-conversion-equality", "\tobs(\"conveq\", Shape(Sq{3}) == Shape(Sq{3}), Shape(Sq{3}) == Shape(Sq{4}))\n")
+	// a method shadowing a promoted method of another signature decides the method set
+	cell("shadowed-promoted-method-assert", "\tvar s ShSizer = ShMid{ShBase{3}, \"a\"}\n\tn, ok := s.(ShNamer)\n\tobs(\"mid-namer\", ok)\n\tif ok {\n\t\tobs(\"name\", n.Name())\n\t}\n\tns, ok2 := s.(ShNameSizer)\n\tobs(\"mid-namesizer\", ok2)\n\tif ok2 {\n\t\tobs(\"ns\", ns.Name(), ns.Size())\n\t}\n\ts = ShBase{5}\n\t_, ok3 := s.(ShNamer)\n\tobs(\"base-namer\", ok3)\n")
+	cell("shadowed-promoted-method-embedded-pointer", "\tvar s ShSizer = ShTop{&ShMid{ShBase{4}, \"b\"}, 1}\n\tn, ok := s.(ShNamer)\n\tobs(\"top-namer\", ok)\n\tif ok {\n\t\tobs(\"name\", n.Name())\n\t}\n\tobs(\"direct\", s.(ShNamer).Name())\n")
+	cell("shadowed-promoted-method-type-switch", "\tobs(\"d1\", shDescribe(ShMid{ShBase{6}, \"c\"}))\n\tobs(\"d3\", shDescribe(&ShPtr{ShBase{8}}))\n")
+	cell("type-switch-method-of-other-signature", "\tobs(\"d2\", shDescribe(ShBase{7}))\n")
+	cell("type-switch-pointer-method-on-value", "\tobs(\"d4\", shDescribe(ShPtr{ShBase{9}}))\n")
+	cell("shadowed-promoted-method-assign", "\tvar n ShNamer = ShMid{ShBase{1}, \"z\"}\n\tvar q ShNameSizer = ShTop{&ShMid{ShBase{2}, \"y\"}, 0}\n\tobs(\"assign\", n.Name(), q.Name(), q.Size())\n")
 	return p
 }
